@@ -64,15 +64,20 @@ pub fn spec(id: &str, tier: Tier) -> Option<CheckSpec> {
             let mut s = CheckSpec::new("exploration", tier);
             s.jobs = eng_render::jobs(tier);
             s.jobs.extend(eng_proc::jobs("C20", tier));
-            s.rule = "task_message for every width 10..=300 x 15 elapsed times x messages placing a 1/2/3/4-byte character at every offset around the cut index with total lengths w-1,w,w+1,w+10,4w; every string of <= N characters over {a,é,€,😀} at widths 10..14; truncate at every alignment for max 0..=300; progress_bar for every count vector with entries 0..=B over the six states at 8 bar sizes (plus scaled vectors); whole frames through the real print_progress at forced widths 10..=300. Non-trivial = the message had to be cut / at least two non-zero counts.".into();
-            s.assumptions = vec!["the display thread's Mutex/Condvar/timeout protocol is not explored (loom does not model wait_timeout_while); the property's content is the totality of the renderers".into()];
-            s.bounds = json!({"short_len": tier.pick(6, 8), "bar_max_count": tier.pick(5, 7)});
+            s.jobs.extend(eng_loom::jobs("C20", tier));
+            s.rule = "task_message for every width 10..=300 x 15 elapsed times x messages placing a 1/2/3/4-byte character at every offset around the cut index with total lengths w-1,w,w+1,w+10,4w; every string of <= N characters over {a,é,€,😀} at widths 10..14; truncate at every alignment for max 0..=300; progress_bar for every count vector with entries 0..=B over the six states at 8 bar sizes (plus scaled vectors); whole frames through the real print_progress at forced widths 10..=300; and (loom:fancy) every interleaving, up to a preemption bound, of the real display thread with a main thread playing every well-formed sequence of <= L Progress calls (update, task started / output / finished with and without output, log) followed by drop, with the timeout of the display thread's timed wait modelled as an event: no deadlock, no panic, and every log line and finished-task block reaches the terminal exactly once, in call order. Non-trivial = the message had to be cut / at least two non-zero counts.".into();
+            s.assumptions = vec![
+                "loom:fancy runs on a scratch copy of the working tree in which only the std::sync / std::thread paths of progress_fancy.rs are rewritten to loom's; wait_timeout_while is supplied as std implements it (loop around a wait) with the timeout raised by a modelled timer thread; sleep is a yield".into(),
+                "loom explores sequentially consistent interleavings up to the stated preemption bound (the code uses only Mutex/Condvar, no weaker atomics)".into(),
+            ];
+            s.bounds = json!({"short_len": tier.pick(6, 8), "bar_max_count": tier.pick(5, 7), "loom_ops_len": tier.pick(3, 4), "loom_preemption_bound": tier.pick(2, 3)});
+            s.hang_secs = 120;
             s
         }
         "C10" => {
             let mut s = CheckSpec::new("exploration", tier);
             s.jobs = eng_load::jobs_c10(tier);
-            s.rule = "abstract manifests from three families (B: one build statement with every presence pattern 0/1/2 paths of the five optional sections x 7 path rotations over paths needing `$ ` `$:` `$$` escapes and UTF-8; A: every placement of command/description/depfile/pool/deps/rspfile at rule or build level; S: every sequence of <= L statements over an 11-entry menu incl. include/subninja/default/pool/comments/bindings), each under the canonical spelling and every spelling with <= D deviations at the spacing / continuation / `$v`-vs-`${v}` choice points (all pairs on a shape subset); the loaded graph dump is compared field by field with a reference loader and with the dump of the canonical spelling. Non-trivial = a non-canonical spelling, or any A/S manifest.".into();
+            s.rule = "abstract manifests from three families (B: one build statement with every presence pattern 0/1/2 paths of the five optional sections x 7 path rotations over paths needing `$ ` `$:` `$$` escapes and UTF-8; A: every placement of command/description/depfile/pool/deps/rspfile at rule or build level; S: every sequence of <= L statements over a 13-entry menu incl. include (of files that re-bind names of the includer and add new ones)/subninja/default/pool/comments/bindings), each under the canonical spelling and every spelling with <= D deviations at the spacing / continuation / `$v`-vs-`${v}` choice points (all pairs on a shape subset); the loaded graph dump is compared field by field with a reference loader and with the dump of the canonical spelling. Non-trivial = a non-canonical spelling, or any A/S manifest.".into();
             s.assumptions = vec![
                 "comments only at column 0 between statements; trailing blanks only where Ninja's grammar and n2 both allow them (build/default lines)".into(),
                 "a final newline ends every file (its absence is C12's business)".into(),
@@ -91,7 +96,7 @@ pub fn spec(id: &str, tier: Tier) -> Option<CheckSpec> {
         "C14" => {
             let mut s = CheckSpec::new("exploration", tier);
             s.jobs = eng_load::jobs_c14(tier);
-            s.rule = "a first build statement with every list of 1..3 outputs over 6 spellings {x,./x,d/../x,y,./y,x/} at every explicit/implicit split, alone and followed by a second statement (1..2 outputs, same file / included file / subninja'd before) and a third (1 output); expected per reference loader: error citing both statements iff two statements produce one location, otherwise accepted with a warning iff an output repeats, outputs unique, explicit count consistent. Non-trivial = rejected manifests and manifests with a repeated output.".into();
+            s.rule = "a first build statement with every list of 1..3 outputs over 9 spellings {x,./x,d/../x,y,./y,x/,z/x,z//x, and y reached through 61 directories and 61 `..`} at every explicit/implicit split, alone and followed by a second statement (1..2 outputs, same file / included file / subninja'd before) and a third (1 output); expected per reference loader: error citing both statements iff two statements produce one location, otherwise accepted with a warning iff an output repeats, outputs unique, explicit count consistent. Non-trivial = rejected manifests and manifests with a repeated output.".into();
             s.bounds = json!({"first_statement_outputs": tier.pick(3, 4), "second": 2, "third": 1});
             s
         }
@@ -112,13 +117,14 @@ pub fn spec(id: &str, tier: Tier) -> Option<CheckSpec> {
         "C16" => {
             let mut s = CheckSpec::new("exploration", tier);
             s.jobs = eng_proc::jobs("C16", tier);
-            s.rule = "the real n2 binary with real /bin/sh commands that record their own argv (/proc/$$/cmdline), stdin, open descriptors and cwd: 14 command strings (quotes, $-expansion, redirections, ;, &&, subshells, globs, UTF-8) x 3 output placements (plain, nested directories with an rspfile, a directory with a blank); output volumes {0,1,4095,4096,4097,8191,8192,65535,65536,65537,200000} via stdout, stderr, alternating, and two concurrent commands; every exit code 0..=255 and every signal 1..=31 except the stop signals; -j in {1,2,4,8,16} with 2j commands printing a tagged 5000-byte block in pieces; and every output of <= N tokens over {note prefix, x, blank, LF, CR, y} through the real /showIncludes filter against a reference filter. Non-trivial = every configuration that ran to its oracle.".into();
+            s.jobs.extend(eng_loom::jobs("C16", tier));
+            s.rule = "the real n2 binary with real /bin/sh commands that record their own argv (/proc/$$/cmdline), stdin, open descriptors and cwd: 14 command strings (quotes, $-expansion, redirections, ;, &&, subshells, globs, UTF-8) x 3 output placements (plain, nested directories with an rspfile, a directory with a blank); output volumes {0,1,4095,4096,4097,8191,8192,65535,65536,65537,200000} via stdout, stderr, alternating, and two concurrent commands; every exit code 0..=255 and every signal 1..=31 except the stop signals; -j in {1,2,4,8,16} with 2j commands printing a tagged 5000-byte block in pieces; and every output of <= N tokens over {note prefix, x, blank, LF, CR, y} through the real /showIncludes filter against a reference filter; and (loom) every interleaving of the real task::Runner collector - 2 tasks unbounded, 3 tasks at -j2/-j3 with a preemption bound - with real task threads running the real run_task around a scripted run_command (0-2 output chunks, hidden progress, failure, interruption, /showIncludes notes): every started task is returned by wait exactly once with exactly its bytes, its last-line updates arrive in order before its completion, Runner.running equals the number of live tasks; and every interleaving of the fancy console's display thread with the main thread: each finished task's block and each log line is printed exactly once, contiguously, in order. Non-trivial = every configuration that ran to its oracle; for loom jobs, distinct observed delivery orders.".into();
             s.assumptions = vec![
                 "NOT decided: how the kernel interleaves real children and pipe wake-ups is not controllable with anything installed; each configuration is run once, and the oracles only state what must hold under every interleaving (contiguity, exactly-once, status mapping)".into(),
-                "all interleavings of the collector threads (loom on task::Runner) were not built; see DESIGN.md".into(),
+                "loom jobs run on a scratch copy of the working tree in which only the std::sync / std::thread paths of task.rs and progress_fancy.rs are rewritten to loom's; they cover the thread protocol between n2's own threads, not the kernel's scheduling of child processes".into(),
             ];
             s.exhaustive = true;
-            s.hang_secs = 60;
+            s.hang_secs = 120;
             s
         }
         "C01" | "C04" | "C05" | "C06" | "C18" | "C19" => {
@@ -128,10 +134,11 @@ pub fn spec(id: &str, tier: Tier) -> Option<CheckSpec> {
             if id == "C19" {
                 s.jobs.extend(eng_hist::jobs("C19", tier));
             }
+            s.jobs.extend(eng_loom::jobs(id, tier));
             s.rule = format!("stateless exhaustive exploration of the real run::build under a gated, scripted executor: for every scenario of the families {:?} (abstract project -> generated manifest loaded by the real loader; initial state fresh or fully built then edited; per-step command outcome; -j/-k/targets) every sequence of choices (which running command finishes next; in which order newly ready dependents are visited) is executed and the property's trace monitor is evaluated against the abstract project and the reference model. States = explorer nodes (scenario, choice prefix), transitions = choice points taken, non-trivial = distinct traces with at least two command starts.", s.jobs.iter().map(|j| j.0.clone()).collect::<Vec<_>>());
             s.assumptions = vec![
                 "commands are scripted: they write only their outputs/depfile, with mtimes from a logical clock".into(),
-                "exactly one thread runs at a time (cooperative gates); real thread interleavings of task::Runner are not explored here".into(),
+                if id == "C04" { "the sched jobs run exactly one thread at a time (cooperative gates); the real thread interleavings of task::Runner (slot accounting: running, can_start_more, tids) are explored separately by the loom:runner job on a scratch copy whose std sync/thread paths in task.rs are rewritten to loom's".into() } else { "exactly one thread runs at a time (cooperative gates); real thread interleavings of task::Runner are explored by the loom jobs of C04/C16, not here".into() },
                 "bounds: 3-step graphs over all edge kinds exhaustively, 4-step graphs on reduced edge alphabets, curated 4-6 step shapes".into(),
             ];
             s.must_be_nonzero = vec!["executions_with_concurrency", "executions_with_choice"];
@@ -189,6 +196,7 @@ pub fn run_job(ctx: &mut Ctx) -> ShardResult {
         "hist" => eng_hist::run(ctx),
         "crash" => eng_crash::run(ctx),
         "proc" => eng_proc::run(ctx),
+        "loom" => eng_loom::run(ctx),
         other => panic!("unknown engine {:?}", other),
     }
 }
@@ -202,6 +210,7 @@ pub fn case_from_marker(_prop: &str, job: &str, index: u64, bytes: &[u8]) -> Val
         "total" => eng_total::case_from_marker(job, bytes),
         "sched" => eng_sched::case_from_marker(job, bytes),
         "hist" => eng_hist::case_from_marker(job, bytes),
+        "loom" => eng_loom::case_from_marker(job, bytes),
         _ => json!({"job": job, "index": index, "marker": String::from_utf8_lossy(bytes)}),
     }
 }
